@@ -146,6 +146,19 @@ Definition skel_cat (ss : list (list Z)) (dim : Z) : skel :=
   | [s] => [("Identity", [])]
   | _ => [("Concat", [[dim]])]
   end.
+(* repaired (proposed_fixes/ready/C08_15): Concat receives the filtered tensors; when every tensor is a legacy empty one the first is returned *)
+Definition aten_cat_fixed (ss : list (list Z)) (dim : Z) : option (list Z) :=
+  match filter (fun s => negb (legacy_empty s)) ss with
+  | [] => match ss with [] => None | _ => Some [0] end
+  | [s] => Some s
+  | fs => concat_shapes fs dim
+  end.
+Definition skel_cat_fixed (ss : list (list Z)) (dim : Z) : skel :=
+  match filter (fun s => negb (legacy_empty s)) ss with
+  | [] => match ss with [] => [] | _ => [("Identity", [])] end
+  | [s] => [("Identity", [])]
+  | _ => [("Concat", [[dim]])]
+  end.
 (* aten_stack: Unsqueeze every tensor at dim, Concat at dim *)
 Definition aten_stack (ss : list (list Z)) (dim : Z) : option (list Z) :=
   obind (omap_all (fun s => unsqueeze_axes s [dim]) ss) (fun us => concat_shapes us dim).
